@@ -9,6 +9,7 @@ CONSTANTS
   KeyMode = "full"
   MaxLen = 4
   PPBs <- PPBSmall
-  Picks <- NoPicks
+  NPicks = 0
+  PickAt <- NoPick
 INVARIANTS SnapshotLemmas
 CHECK_DEADLOCK FALSE
